@@ -8,6 +8,10 @@ ids = [p["id"] for p in props]
 
 # id -> (engine, technique, level text, level note, design ref)
 CHECKS = {
+ "C03": ("E3", "explicit exploration of key histories (bootstrap; rotate^n through the real CLI) x endorse request shapes x verification times x authorities, with every endorsement issued so far re-verified after every later command",
+         "For memkm+memca, memkm+gcsca and localkm+localca the histories bootstrap, +rotate, +rotate with serial override (thorough: +rotate with a new common name a year later) are driven through cmd.MakeApp; after every command the real endorse command is run for 18 request shapes and every endorsement issued so far is verified by verify.Endorsement at start-1s/start/mid/end/end+1s of the intersection of both certificates' validity, by an independent RSA-PSS check over the raw output of the inspect commands (the documented openssl flow), and every listed measurement / MRTD is pushed through the verifier, the validator closure, SevValidate and TdxValidate for its own configuration.",
+         "Trusted: crypto/rsa, crypto/x509; images are small synthetic firmware valid for both technologies; verification times are the five boundary points, not every instant.",
+         "DESIGN.md#c03"),
  "C06": ("E5", "bounded-exhaustive deviation lattice over endorsement requests (all subsets of <=3/4 of 26 request deviations) on the real GoldenMeasurement/SignDoc, every document entry compared with an independent computation over the same image bytes",
          "A baseline request plus every subset of at most 3 (thorough: 4) of 26 deviations (technology subsets, VMSA counts, products, machine-shape lists incl. duplicate and unknown, early accept, SVN, ids valid/invalid, SVSM measurement, commit provenance, timestamp, images valid for one technology only or none) is run through endorse.GoldenMeasurement and endorse.SignDoc; the digest, the exact key set and every SNP value, every TDX row (order, RAM, early flag, MRTD), ids, SVN, SVSM, provenance, timestamp, certificate and the parse-back of the signed payload are compared with harness/ref; a request whose measurement must fail may not yield a document.",
          "Trusted: harness/ref (tied to the specifications by C04/C05); the discarded error of the early-accept MRTD cannot be triggered by any input found (both modes build the same-sized hand-off block), so only its visible effect (a placeholder/incorrect row) is checked.",
